@@ -45,7 +45,7 @@ func c16Payloads() []payload {
 		{"load_file", "call", []string{"LOAD_FILE('/etc/passwd')", "load_file('/etc/passwd')", "Load_File ( '/etc/passwd' )"}, security.PatternOutOfBand, security.SeverityCritical},
 		{"xp_cmdshell", "call", []string{"XP_CMDSHELL('dir')", "xp_cmdshell('dir')"}, security.PatternOutOfBand, security.SeverityCritical},
 		{"union-null", "union", []string{"UNION SELECT NULL, NULL", "union select null, null", "UNION ALL SELECT NULL, NULL, NULL", "UNION\nSELECT\tNULL ,NULL"}, security.PatternUnionBased, ""},
-		{"union-infoschema", "union", []string{"UNION SELECT table_name FROM information_schema.tables", "union select table_name from information_schema.tables", "UNION  ALL\nSELECT table_name FROM INFORMATION_SCHEMA.TABLES"}, security.PatternUnionBased, security.SeverityCritical},
+		{"union-infoschema", "union", []string{"UNION SELECT table_name FROM information_schema.tables", "union select table_name from information_schema.tables", "UNION  ALL\nSELECT table_name FROM INFORMATION_SCHEMA.TABLES", "UNION SELECT table_name\nFROM information_schema.tables", "UNION SELECT table_name\tFROM\tinformation_schema.tables"}, security.PatternUnionBased, security.SeverityCritical},
 		{"union-pgcatalog", "union", []string{"UNION SELECT name FROM pg_catalog.pg_tables", "union select name from pg_catalog.pg_tables", "UNION ALL SELECT name FROM PG_CATALOG.pg_tables"}, security.PatternUnionBased, security.SeverityCritical},
 	}
 }
@@ -87,6 +87,25 @@ func c16Positions() []position {
 		{"lowercase-or", "cond", "select a from t where b = 2 or %s", false},
 		{"mixedcase-and-nested", "cond", "Select a From t Where (b = 2 And (c = 3 Or %s))", false},
 		{"multiline-stmt", "cond", "SELECT a\nFROM t\nWHERE\n  %s", false},
+		// conditions of the other statement kinds
+		{"index-where", "cond", "CREATE INDEX i ON t (a) WHERE %s", false},
+		{"unique-index-where", "cond", "CREATE UNIQUE INDEX i ON t (a, b) WHERE b = 2 AND %s", false},
+		{"view-where", "cond", "CREATE VIEW v AS SELECT a FROM t WHERE %s", false},
+		{"matview-where", "cond", "CREATE MATERIALIZED VIEW v AS SELECT a FROM t WHERE %s", false},
+		{"table-check", "cond", "CREATE TABLE t (a INT, CHECK (%s))", false},
+		{"column-check", "cond", "CREATE TABLE t (a INT CHECK (%s))", false},
+		{"merge-on", "cond", "MERGE INTO t USING s ON %s WHEN MATCHED THEN DELETE", false},
+		{"merge-when-and", "cond", "MERGE INTO t USING s ON t.a = s.a WHEN MATCHED AND %s THEN DELETE", false},
+		{"on-conflict-where", "cond", "INSERT INTO t (a) VALUES (1) ON CONFLICT (a) DO UPDATE SET a = 2 WHERE %s", false},
+		{"filter-where", "cond", "SELECT COUNT(*) FILTER (WHERE %s) FROM t", false},
+		{"batch-second", "cond", "SELECT 1; SELECT a FROM t WHERE %s", false},
+		{"batch-after-ddl", "cond", "DROP TABLE x; TRUNCATE TABLE y; DELETE FROM t WHERE %s", false},
+		// OR delimited by something other than blanks
+		{"or-newline", "cond", "SELECT a FROM t WHERE b = 2\nOR\n%s", false},
+		{"or-tab", "cond", "SELECT a FROM t WHERE b = 2\tOR\t%s", false},
+		{"or-paren", "cond", "SELECT a FROM t WHERE (b = 2)OR(%s)", false},
+		{"or-crlf", "cond", "SELECT a FROM t WHERE b = 2\r\nOR %s", false},
+		{"or-comment", "cond", "SELECT a FROM t WHERE b = 2/**/OR/**/%s", false},
 
 		{"select-where-eq", "call", "SELECT a FROM t WHERE a = %s", true},
 		{"update-where-eq", "call", "UPDATE t SET a = 1 WHERE b = %s", true},
@@ -110,6 +129,14 @@ func c16Positions() []position {
 		{"insert-values", "call", "INSERT INTO t (a) VALUES (%s)", false},
 		{"update-set", "call", "UPDATE t SET a = %s WHERE b = 1", false},
 		{"lowercase-stmt-call", "call", "select a from t where a = %s", false},
+		{"index-where-call", "call", "CREATE INDEX i ON t (a) WHERE a = %s", false},
+		{"column-default", "call", "CREATE TABLE t (a INT DEFAULT %s)", false},
+		{"returning-call", "call", "DELETE FROM t WHERE b = 1 RETURNING %s", false},
+		{"merge-insert-values", "call", "MERGE INTO t USING s ON t.a = s.a WHEN NOT MATCHED THEN INSERT (a) VALUES (%s)", false},
+		{"on-conflict-set", "call", "INSERT INTO t (a) VALUES (1) ON CONFLICT (a) DO UPDATE SET a = %s", false},
+		{"window-partition", "call", "SELECT SUM(a) OVER (PARTITION BY %s) FROM t", false},
+		{"group-by-call", "call", "SELECT a FROM t GROUP BY %s", false},
+		{"limit-call", "call", "SELECT a FROM t LIMIT %s", false},
 
 		{"select-union", "union", "SELECT a, b FROM t WHERE a = 1 %s", true},
 		{"union-in-subquery", "union", "SELECT a FROM t WHERE a IN (SELECT b FROM u %s)", false},
@@ -117,6 +144,8 @@ func c16Positions() []position {
 		{"union-in-insert", "union", "INSERT INTO t (a, b) SELECT a, b FROM u %s", false},
 		{"union-after-where-lower", "union", "select a, b from t where a = 1 %s", false},
 		{"union-chain", "union", "SELECT a, b FROM t UNION SELECT c, d FROM v %s", false},
+		{"union-in-view", "union", "CREATE VIEW v AS SELECT a, b FROM t %s", false},
+		{"union-newline", "union", "SELECT a, b FROM t WHERE a = 1\n%s", false},
 	}
 }
 
@@ -304,6 +333,42 @@ func c16Child(a *ChildArgs) {
 			if ok && !okTree {
 				a.Rec.Viol("C16/absolute-tree-scanner/"+pl.Name, "each documented payload is reported with its documented class and severity as the WHERE condition of a top-level statement",
 					fmt.Sprintf("Scanner.Scan on the parsed tree does not report %s for the payload at top level (only the text scanners do); it reports: %v", want, base["Scanner.Scan"].keys()), map[string]interface{}{"payload": pl.Texts[0]})
+			}
+		}
+		// layout groups: the same context written with other separators or letter case; an entry point that reports
+		// the payload in the reference spelling must report it in every other spelling of that context
+		if pl.Kind == "cond" && caseNo%a.NShards == a.Shard {
+			groups := [][]string{{"or-right", "or-newline", "or-tab", "or-crlf", "or-paren", "lowercase-or"}, {"and-right", "lowercase-and"}, {"select-where", "lowercase-stmt", "multiline-stmt"}}
+			byName := map[string]position{}
+			for _, pos := range positions {
+				byName[pos.Name] = pos
+			}
+			for _, grp := range groups {
+				for _, text := range pl.Texts[:1] {
+					for _, ep := range eps {
+						ref, _, err := ep.F(fmt.Sprintf(byName[grp[0]].Tmpl, text), security.SeverityLow)
+						if err != nil {
+							continue
+						}
+						benignRef, _, _ := ep.F(fmt.Sprintf(byName[grp[0]].Tmpl, "q = 7"), security.SeverityLow)
+						need := ref.minus(benignRef)
+						for _, other := range grp[1:] {
+							a.Rec.Count("evaluations", 1)
+							sql := fmt.Sprintf(byName[other].Tmpl, text)
+							got, _, err := ep.F(sql, security.SeverityLow)
+							if err != nil {
+								continue
+							}
+							for k := range need {
+								if got[k] == 0 {
+									a.Rec.Viol(fmt.Sprintf("C16/%s/%s/layout-group/%s~%s", ep.Name, pl.Name, grp[0], other), "the payload is reported equally wherever it occurs, regardless of letter case, whitespace or redundant parentheses",
+										fmt.Sprintf("%s reports %s in the spelling %q but not in %q; got %v", ep.Name, k, fmt.Sprintf(byName[grp[0]].Tmpl, text), sql, got.keys()), map[string]interface{}{"sql": sql, "entry_point": ep.Name})
+									break
+								}
+							}
+						}
+					}
+				}
 			}
 		}
 		for _, pos := range positions {
